@@ -262,6 +262,20 @@ pub fn library_location(msg: &str) -> String {
     }
 }
 
+/// A child process that dies with its parent (so that a watchdog exit or a kill of the check never leaves
+/// hung children behind)
+pub fn child_command<S: AsRef<std::ffi::OsStr>>(program: S) -> std::process::Command {
+    use std::os::unix::process::CommandExt;
+    let mut c = std::process::Command::new(program);
+    unsafe {
+        c.pre_exec(|| {
+            libc::prctl(libc::PR_SET_PDEATHSIG, libc::SIGKILL);
+            Ok(())
+        });
+    }
+    c
+}
+
 pub fn machinery_failure(msg: &str) -> ! {
     println!("MACHINERY-FAILURE: {}", msg);
     eprintln!("MACHINERY-FAILURE: {}", msg);
@@ -662,7 +676,7 @@ pub fn child_emit(st: &Stats) -> i32 {
 /// merge its statistics; violations get `"build": tag` added to their case and `tag/` prefixed to the key.
 pub fn run_child_and_merge(ctx: &Ctx, st: &Stats, env_name: &str, tag: &str, args: &[String]) {
     let bin = std::env::var(env_name).unwrap_or_else(|_| machinery_failure(&format!("{} not set (run through ./check)", env_name)));
-    let out = std::process::Command::new(&bin)
+    let out = crate::common::child_command(&bin)
         .arg(&ctx.id)
         .arg("--tier")
         .arg(ctx.tier_str())
@@ -756,7 +770,7 @@ pub fn replay_delegate(id: &str, case: &Value) -> Option<Result<(), String>> {
             format!("{}/harness/target/{}/rqcheck", base, build)
         }
     };
-    let out = std::process::Command::new(&bin).arg(id).arg("--replay-case").arg(case.to_string()).output();
+    let out = crate::common::child_command(&bin).arg(id).arg("--replay-case").arg(case.to_string()).output();
     match out {
         Err(e) => Some(Err(format!("cannot run {}: {}", bin, e))),
         Ok(o) => {
@@ -781,7 +795,7 @@ pub fn replay_generic(id: &str, case: &Value) -> Option<Result<(), String>> {
                 Err(_) => return Some(Err(format!("{} not set", env_name))),
             };
             let args: Vec<String> = case["args"].as_array().map(|a| a.iter().map(|x| x.as_str().unwrap_or("").to_string()).collect()).unwrap_or_default();
-            let out = std::process::Command::new(&bin).arg(id).arg("--tier").arg(case["tier"].as_str().unwrap_or("quick")).arg("--child").args(&args).output();
+            let out = crate::common::child_command(&bin).arg(id).arg("--tier").arg(case["tier"].as_str().unwrap_or("quick")).arg("--child").args(&args).output();
             match out {
                 Err(e) => Some(Err(format!("cannot run child: {}", e))),
                 Ok(o) => {
@@ -804,7 +818,7 @@ pub fn replay_generic(id: &str, case: &Value) -> Option<Result<(), String>> {
         Some("library-panic") => {
             // re-run the whole check in a fresh process and look for the same location
             let exe = std::env::current_exe().ok()?;
-            let out = std::process::Command::new(exe).arg(id).arg("--tier").arg(case["tier"].as_str().unwrap_or("quick")).arg("--no-evidence").arg("--no-replay").output().ok()?;
+            let out = crate::common::child_command(exe).arg(id).arg("--tier").arg(case["tier"].as_str().unwrap_or("quick")).arg("--no-evidence").arg("--no-replay").output().ok()?;
             let so = String::from_utf8_lossy(&out.stdout).to_string();
             let loc = case["location"].as_str().unwrap_or("");
             if so.contains(&format!("library-panic:{}", loc)) {
